@@ -164,7 +164,8 @@ func subC20(out string, seed uint64, tier string, arg string) {
 		}
 	}
 	dnsCert := func(dns []string, cn string) {
-		spec := CertSpec{DNS: dns, EKUs: []stdx509.ExtKeyUsage{stdx509.ExtKeyUsageServerAuth}}
+		// the SAN is written by DER surgery (RawSAN): the standard library refuses to encode non-IA5 names itself
+		spec := CertSpec{DNS: []string{"placeholder.example.com"}, EKUs: []stdx509.ExtKeyUsage{stdx509.ExtKeyUsageServerAuth}}
 		if cn == "" {
 			spec.Subject = pkix.Name{Organization: []string{"Org"}}
 		} else {
@@ -177,10 +178,13 @@ func subC20(out string, seed uint64, tier string, arg string) {
 		spec.RawSAN = names
 		der, err := BuildCert(spec)
 		if err != nil {
+			rep.count("kit-build-error:dns")
 			return
 		}
 		if o := parseObj("cert", "kit-dns", der); o != nil {
 			cmp(o, pairBy["rfc-br"], "dns["+strings.Join(dns, ",")+"] cn="+cn)
+		} else {
+			rep.count("kit-rejected-by-parser:dns")
 		}
 	}
 	for _, d := range dnsAtoms {
